@@ -184,6 +184,10 @@ pub trait Kind: Sized {
     fn count_all(&self) -> usize {
         self.count()
     }
+    /// as count_all where that is cheap; the primary accessor for the pointer-tagging kinds
+    fn count_light(&self) -> usize {
+        self.count_all()
+    }
     /// payload address as this kind's own deref / as_ptr reports it
     fn data_addr(&self) -> usize;
     fn release(self) {
@@ -274,6 +278,9 @@ impl<T, O> Kind for U1<T, O> {
         assert!(self.0.is_first() && !self.0.is_second() && self.0.as_second().is_none());
         c
     }
+    fn count_light(&self) -> usize {
+        self.count()
+    }
     fn data_addr(&self) -> usize {
         self.0.as_first().unwrap().get() as *const T as usize
     }
@@ -300,6 +307,9 @@ impl<T, O> Kind for U2<T, O> {
         assert!(ArcBorrow::strong_count(&self.0.as_second().unwrap()) == c);
         assert!(self.0.is_second() && !self.0.is_first() && self.0.as_first().is_none());
         c
+    }
+    fn count_light(&self) -> usize {
+        self.count()
     }
     fn data_addr(&self) -> usize {
         self.0.as_second().unwrap().get() as *const T as usize
